@@ -54,6 +54,51 @@ pub broadcast proof fn axiom_pos01_zero_or_below_one(t: f32)
     ensures fgt(t, 0.0f32) || flt(t, 1.0f32)
 {}
 
+/// `a <= b` on positions: the run-time `b < a` is false.
+pub open spec fn fle(a: f32, b: f32) -> bool { !flt(b, a) }
+/// `t` is at 0%: the run-time `t > 0.0` is false.
+pub open spec fn is_zero(t: f32) -> bool { !fgt(t, 0.0f32) }
+/// `t` is at 100%: the run-time `t < 1.0` is false.
+pub open spec fn is_one(t: f32) -> bool { !flt(t, 1.0f32) }
+
+#[verifier::external_body]
+pub broadcast proof fn axiom_pos01_literals()
+    ensures #[trigger] pos01(0.0f32), #[trigger] pos01(1.0f32), is_zero(0.0f32), is_one(1.0f32)
+{}
+
+/// <= is reflexive and transitive on positions.
+#[verifier::external_body]
+pub broadcast proof fn axiom_fle_refl(a: f32)
+    requires #[trigger] pos01(a)
+    ensures fle(a, a)
+{}
+
+#[verifier::external_body]
+pub proof fn axiom_fle_trans(a: f32, b: f32, c: f32)
+    requires pos01(a), pos01(b), pos01(c), fle(a, b), fle(b, c)
+    ensures fle(a, c)
+{}
+
+/// a < b implies a <= b.
+#[verifier::external_body]
+pub proof fn axiom_flt_implies_fle(a: f32, b: f32)
+    requires pos01(a), pos01(b), flt(a, b)
+    ensures fle(a, b)
+{}
+
+/// A position at 0% is <= every position; every position is <= a position at 100%.
+#[verifier::external_body]
+pub proof fn axiom_zero_least(z: f32, b: f32)
+    requires pos01(z), pos01(b), is_zero(z)
+    ensures fle(z, b)
+{}
+
+#[verifier::external_body]
+pub proof fn axiom_one_greatest(a: f32, o: f32)
+    requires pos01(a), pos01(o), is_one(o)
+    ensures fle(a, o)
+{}
+
 // ---------------------------------------------------------------------------------------------
 // Specification of the per-property frame list (C01), written from the property statement as a
 // fold over the master keyframes.
@@ -138,14 +183,14 @@ pub open spec fn a_frames<Data: Clone, Value, F: Fn(&Data) -> Option<Value>>(f: 
 
 /// Master-to-property index map: for each master keyframe the index of the last frame produced
 /// so far (0 if none yet).
-pub open spec fn a_map<Data: Clone, Value, F: Fn(&Data) -> Option<Value>>(f: F, kfs: Seq<Keyframe<Data>>, de: Easing, n: int) -> Seq<usize>
+pub open spec fn a_map<Data: Clone, Value, F: Fn(&Data) -> Option<Value>>(f: F, kfs: Seq<Keyframe<Data>>, de: Easing, n: int) -> Seq<int>
     decreases n
 {
     if n <= 0 {
         Seq::empty()
     } else {
         let len = a_frames(f, kfs, de, n).len();
-        a_map(f, kfs, de, n - 1).push((if len >= 1 { len - 1 } else { 0 }) as usize)
+        a_map(f, kfs, de, n - 1).push(if len >= 1 { len - 1 } else { 0 })
     }
 }
 
@@ -185,6 +230,12 @@ pub open spec fn frames_match<Data: Clone, Value: Clone, F: Fn(&Data) -> Option<
 pub open spec fn vframes<Value: Clone>(v: &Vec<SplitKeyframe<Value>>) -> Seq<SplitKeyframe<Value>> { v@ }
 pub open spec fn vmap(v: &Vec<usize>) -> Seq<usize> { v@ }
 
+/// The concrete index map holds exactly the abstract one.
+pub open spec fn map_matches(v: Seq<usize>, a: Seq<int>) -> bool {
+    &&& v.len() == a.len()
+    &&& forall|i: int| 0 <= i < a.len() ==> (#[trigger] v[i]) as int == a[i]
+}
+
 // -- lemmas ------------------------------------------------------------------------------------
 
 /// No frames yet means no defining keyframe yet, hence the easing in force is still the default.
@@ -204,13 +255,149 @@ pub proof fn lemma_frames_nonempty_and_map_in_range<Data: Clone, Value, F: Fn(&D
     ensures
         has_data(f, kfs, n) ==> a_frames(f, kfs, de, n).len() >= 1,
         a_map(f, kfs, de, n).len() == n,
-        forall|i: int| 0 <= i < n ==> (#[trigger] a_map(f, kfs, de, n)[i]) < a_frames(f, kfs, de, n).len() || a_frames(f, kfs, de, n).len() == 0,
-        forall|i: int| 0 <= i < n ==> (#[trigger] a_map(f, kfs, de, n)[i]) == 0 || (a_map(f, kfs, de, n)[i] as int) < a_frames(f, kfs, de, n).len(),
+        forall|i: int| 0 <= i < n ==> 0 <= (#[trigger] a_map(f, kfs, de, n)[i]),
+        forall|i: int| 0 <= i < n ==> (#[trigger] a_map(f, kfs, de, n)[i]) == 0 || a_map(f, kfs, de, n)[i] < a_frames(f, kfs, de, n).len(),
     decreases n
 {
     if n > 0 {
         lemma_frames_nonempty_and_map_in_range(f, kfs, de, n - 1);
         assert(a_frames(f, kfs, de, n - 1).len() <= a_frames(f, kfs, de, n).len());
+    }
+}
+
+
+// ---------------------------------------------------------------------------------------------
+// Linking the frame list to the master keyframe positions (what the O(1) lookup relies on)
+
+/// Master keyframes are valid: positions in [0,1], non-decreasing (what
+/// `TimelineBuilderArguments::from` delivers: sorted by `total_cmp`).
+pub open spec fn kfs_ok<Data: Clone>(kfs: Seq<Keyframe<Data>>) -> bool {
+    &&& forall|i: int| 0 <= i < kfs.len() ==> pos01(#[trigger] kfs[i].normalized_time)
+    &&& forall|i: int, j: int| 0 <= i <= j < kfs.len() ==> fle(#[trigger] kfs[i].normalized_time, #[trigger] kfs[j].normalized_time)
+}
+
+pub open spec fn af_inv<Data: Clone, Value, F: Fn(&Data) -> Option<Value>>(f: F, kfs: Seq<Keyframe<Data>>, de: Easing, n: int) -> bool {
+    let p = a_frames(f, kfs, de, n);
+    let m = a_map(f, kfs, de, n);
+    &&& m.len() == n
+    &&& p.len() <= 2 * n
+    &&& forall|j: int| 0 <= j < p.len() ==> pos01(#[trigger] p[j].t)
+    &&& (p.len() > 0 ==> is_zero(p[0].t))
+    &&& (n >= 1 ==> forall|j: int| 0 <= j < p.len() ==> fle(#[trigger] p[j].t, kfs[n - 1].normalized_time))
+    &&& forall|i: int| 0 <= i < n ==> 0 <= (#[trigger] m[i]) && (m[i] < p.len() || (p.len() == 0 && m[i] == 0))
+    &&& forall|i: int| 0 <= i < n ==> ((#[trigger] m[i]) == 0 || fle(p[m[i]].t, kfs[i].normalized_time))
+    &&& forall|i: int, j: int| #![trigger m[i], p[j]] 0 <= i && i + 1 < n && m[i] < j < p.len() ==> fle(kfs[i + 1].normalized_time, p[j].t)
+    &&& (n >= 1 ==> m[0] <= 1)
+    &&& (n >= 1 ==> m[n - 1] == (if p.len() >= 1 { p.len() - 1 } else { 0 }))
+}
+
+/// `a_frames(n - 1)` is a prefix of `a_frames(n)`; same for the map.
+pub proof fn lemma_af_step_prefix<Data: Clone, Value, F: Fn(&Data) -> Option<Value>>(f: F, kfs: Seq<Keyframe<Data>>, de: Easing, n: int)
+    requires 1 <= n <= kfs.len(),
+    ensures
+        a_frames(f, kfs, de, n - 1).len() <= a_frames(f, kfs, de, n).len(),
+        a_frames(f, kfs, de, n).len() <= a_frames(f, kfs, de, n - 1).len() + 2,
+        forall|j: int| 0 <= j < a_frames(f, kfs, de, n - 1).len() ==> a_frames(f, kfs, de, n)[j] == a_frames(f, kfs, de, n - 1)[j],
+        forall|i: int| 0 <= i < n - 1 ==> a_map(f, kfs, de, n)[i] == a_map(f, kfs, de, n - 1)[i],
+        a_map(f, kfs, de, n).len() == a_map(f, kfs, de, n - 1).len() + 1,
+{
+    lemma_frames_nonempty_and_map_in_range(f, kfs, de, n - 1);
+    lemma_frames_nonempty_and_map_in_range(f, kfs, de, n);
+}
+
+pub proof fn lemma_af_inv<Data: Clone, Value, F: Fn(&Data) -> Option<Value>>(f: F, kfs: Seq<Keyframe<Data>>, de: Easing, n: int)
+    requires 0 <= n <= kfs.len(), kfs_ok(kfs),
+    ensures af_inv(f, kfs, de, n),
+    decreases n
+{
+    broadcast use axiom_pos01_literals, axiom_fle_refl;
+    if n > 0 {
+        lemma_af_inv(f, kfs, de, n - 1);
+        lemma_af_step_prefix(f, kfs, de, n);
+        let p0 = a_frames(f, kfs, de, n - 1);
+        let p = a_frames(f, kfs, de, n);
+        let m0 = a_map(f, kfs, de, n - 1);
+        let m = a_map(f, kfs, de, n);
+        let kt = kfs[n - 1].normalized_time;
+        let lead = p0.len() == 0 && fgt(kt, 0.0f32);
+        let def = defines(f, kfs, n - 1);
+        assert(pos01(kt));
+        // every frame is a valid position, and is at or before keyframe n-1
+        assert forall|j: int| 0 <= j < p.len() implies pos01(#[trigger] p[j].t) && fle(p[j].t, kt) by {
+            if j < p0.len() {
+                assert(p[j] == p0[j]);
+                assert(pos01(p0[j].t));
+                if n >= 2 {
+                    assert(fle(p0[j].t, kfs[n - 2].normalized_time));
+                    assert(fle(kfs[n - 2].normalized_time, kfs[n - 1].normalized_time));
+                    axiom_fle_trans(p0[j].t, kfs[n - 2].normalized_time, kt);
+                }
+            } else if lead && j == 0 {
+                assert(p[j].t == 0.0f32);
+                axiom_zero_least(0.0f32, kt);
+            } else {
+                assert(p[j].t == kt);
+            }
+        }
+        // first frame at 0%
+        if p.len() > 0 {
+            if p0.len() > 0 {
+                assert(p[0] == p0[0]);
+            } else if lead {
+                assert(p[0].t == 0.0f32);
+            } else {
+                assert(p[0].t == kt);
+                assert(is_zero(kt));
+            }
+        }
+        // map entries
+        assert forall|i: int| 0 <= i < n implies (0 <= (#[trigger] m[i]) && (m[i] < p.len() || (p.len() == 0 && m[i] == 0)))
+            && (m[i] == 0 || fle(p[m[i] as int].t, kfs[i].normalized_time)) by {
+            if i < n - 1 {
+                assert(m[i] == m0[i]);
+                if m0[i] != 0 {
+                    assert((m0[i] as int) < p0.len());
+                    assert(p[m0[i] as int] == p0[m0[i] as int]);
+                }
+            } else {
+                if m[i] != 0 {
+                    assert(fle(p[m[i] as int].t, kt));
+                }
+            }
+        }
+        // frames after the mapped index come from later keyframes
+        assert forall|i: int, j: int| #![trigger m[i], p[j]] 0 <= i && i + 1 < n && m[i] < j < p.len()
+            implies fle(kfs[i + 1].normalized_time, p[j].t) by {
+            assert(m[i] == m0[i]);
+            if j < p0.len() {
+                assert(p[j] == p0[j]);
+                if i + 1 < n - 1 {
+                    assert(fle(kfs[i + 1].normalized_time, p0[j].t));
+                } else {
+                    // i == n - 2: m0[i] is the last index of p0 (or 0 with p0 empty): no such j
+                    assert(m0[n - 2] == (if p0.len() >= 1 { p0.len() - 1 } else { 0 }));
+                }
+            } else {
+                // a new frame: the lead sits at index 0 (never above a mapped index), so this is keyframe n-1's frame
+                if lead && j == 0 {
+                    assert(false);
+                } else {
+                    assert(p[j].t == kt);
+                    assert(fle(kfs[i + 1].normalized_time, kfs[n - 1].normalized_time));
+                }
+            }
+        }
+        if n >= 2 {
+            assert(m[0] == m0[0]);
+        }
+        assert(m.len() == n);
+        assert(p.len() <= 2 * n);
+        assert(m[0] <= 1);
+        assert(m[n - 1] == (if p.len() >= 1 { p.len() - 1 } else { 0 }));
+        assert(forall|j: int| 0 <= j < p.len() ==> pos01(#[trigger] p[j].t));
+        assert(forall|j: int| 0 <= j < p.len() ==> fle(#[trigger] p[j].t, kfs[n - 1].normalized_time));
+        assert(forall|i: int| 0 <= i < n ==> 0 <= (#[trigger] m[i]) && (m[i] < p.len() || (p.len() == 0 && m[i] == 0)));
+        assert(forall|i: int| 0 <= i < n ==> ((#[trigger] m[i]) == 0 || fle(p[m[i]].t, kfs[i].normalized_time)));
     }
 }
 
